@@ -9,6 +9,8 @@ import (
 	"fmt"
 	"io"
 	"math"
+	"reflect"
+	"sort"
 	"strconv"
 	"strings"
 
@@ -317,4 +319,66 @@ func UnhexList(s string) []string {
 		out = append(out, Unhex(p))
 	}
 	return out
+}
+
+// DumpAST renders a parsed statement canonically (same format as
+// Model/SqlParse.v show_ast): structs as Name{field=value;...} with fields
+// sorted by name and zero-valued fields left out, interface fields present
+// unless nil.
+func DumpAST(v interface{}) string {
+	if v == nil {
+		return "nil"
+	}
+	return dumpValue(reflect.ValueOf(v))
+}
+
+func dumpValue(v reflect.Value) string {
+	switch v.Kind() {
+	case reflect.Interface, reflect.Ptr:
+		if v.IsNil() {
+			return "nil"
+		}
+		return dumpValue(v.Elem())
+	case reflect.String:
+		s := "s" + hex.EncodeToString([]byte(v.String()))
+		if v.Type().PkgPath() != "" {
+			return v.Type().Name() + "(" + s + ")"
+		}
+		return s
+	case reflect.Int, reflect.Int64, reflect.Int32:
+		s := "i" + strconv.FormatInt(v.Int(), 10)
+		if v.Type().PkgPath() != "" {
+			return v.Type().Name() + "(" + s + ")"
+		}
+		return s
+	case reflect.Float64:
+		return fmt.Sprintf("f%016x", math.Float64bits(v.Float()))
+	case reflect.Bool:
+		if v.Bool() {
+			return "true"
+		}
+		return "false"
+	case reflect.Slice:
+		var el []string
+		for i := 0; i < v.Len(); i++ {
+			el = append(el, dumpValue(v.Index(i)))
+		}
+		return "[" + strings.Join(el, ",") + "]"
+	case reflect.Struct:
+		var fs []string
+		t := v.Type()
+		for i := 0; i < v.NumField(); i++ {
+			f := v.Field(i)
+			if f.Kind() != reflect.Struct && f.IsZero() {
+				continue
+			}
+			if f.Kind() == reflect.Slice && f.Len() == 0 {
+				continue
+			}
+			fs = append(fs, t.Field(i).Name+"="+dumpValue(f))
+		}
+		sort.Strings(fs)
+		return t.Name() + "{" + strings.Join(fs, ";") + "}"
+	}
+	return "?" + v.Kind().String()
 }
